@@ -149,8 +149,9 @@ CHECKS = {
             "closure with every transition executed on both real implementations; default periods get all directed gap "
             "sequences up to length 3/4; per-cycle runs count fires exactly.",
             "Machine level: NOP/WAIT/HALT/OFF/ISR-clearing loops x handlers x masks x 9-12 period pairs stepped on both machines "
-            "with an alignment-agnostic per-step monitor (target in the future, no boundary skipped, phase kept, status bit set, "
-            "disabled timers silent); timers are not judged while a handler runs (neither machine ticks them then). "
+            "(incl. a RESET-executing one) with an alignment-agnostic per-step monitor (target in the future, no boundary skipped, phase kept, status bit set, "
+            "disabled timers silent; tick alignment calibrated per machine on a NOP loop and required of idle HALT cycles); the device BFS also "
+            "contains the real Python save/load path, a snapshot taken after the counter advanced and a whole-machine reset. "
             "Periods above 7 are covered by directed sequences only.",
             "DESIGN.md section 4, C13"),
     "C18": ("model_checking",
@@ -161,7 +162,8 @@ CHECKS = {
             "resumption log must be a prefix of / equal to the reference log and events must come back exactly once in order. "
             "CPU half: every machine configuration (8 firmware loops x handlers x IMR x timer periods x pre-applied key events) x "
             "every instruction count 0..10/16 x 7 slice sizes, every two-run split and mixed sync/async run through "
-            "AsyncRuntimeRunner vs CoreRuntime::step on a twin machine (registers, memory, counters, timers, interrupt bookkeeping).",
+            "AsyncRuntimeRunner vs CoreRuntime::step on a twin machine (registers, memory, counters, timers, interrupt bookkeeping). Every scheduler "
+            "case is repeated with all events carrying the same value and right after an unrelated driver finished on the same thread.",
             "Durations come from {0,1,2,3,5}; budgets from {1,2,3,4,7}; larger sets/scripts are not explored. Budget "
             "accounting itself (whether a task due exactly at the budget edge runs) is not part of the statement.",
             "DESIGN.md section 4, C18"),
@@ -171,7 +173,8 @@ CHECKS = {
             "All histories up to the stated depth over 3 colliding keys (shared row, shared column) and 5 strobe values, "
             "both column polarities and several debounce/repeat settings, are replayed on each real matrix; event streams, "
             "key-input lower/upper bounds, FIFO capacity/drop-oldest and per-key event order are judged on every transition. The "
-            "Python matrix is driven both directly and through the bus-facing PCE500KeyboardHandler (register reads/writes).",
+            "Python matrix is driven both directly and through the bus-facing PCE500KeyboardHandler (register reads/writes); KEYI gating "
+            "through the whole machine (interrupts disabled/enabled x timers x programs); Rust tick count vs queue growth with FIFO mirroring on/off.",
             "Depth-bounded (5/7 Python, 4/6 Rust), with scripted runs covering the 24-tick repeat delay; the Rust matrix only "
             "exposes the press threshold; KEYI gating is checked at write_fifo_to_memory / _scan_keyboard_per_instruction.",
             "DESIGN.md section 4, C14"),
@@ -194,7 +197,8 @@ CHECKS = {
             "{step, key press/release, ON} up to length 1-3 are executed on both machines and all program-visible observables "
             "(registers, internal memory, RAM, power, FIFO, key input, timer distances, delivery counts, LCD) must agree. Device level: "
             "the keyboard matrix and the LCD controllers are saved into a fresh object and reloaded at every position of long scripts "
-            "and inside a BFS whose alphabet contains the snapshot, judged by the C14/C15 reference models (snapshot = identity).",
+            "and inside a BFS whose alphabet contains the snapshot, judged by the C14/C15 reference models (snapshot = identity). Programs "
+            "that touch the LCD, the card window, a RAM expansion and the ROM/read-only windows, a machine built with timer_scale != 1.",
             "Rust bundles are written/read through the verification zip shim (real ZIP container); bookkeeping flags are not "
             "compared directly, only their observable consequences; wall-clock metadata is ignored.",
             "DESIGN.md section 4, C16"),
